@@ -49,3 +49,25 @@ pub fn ext_i32_from_be_bytes(b: [u8; 4]) -> (r: i32) ensures r as int == bei32(b
 pub fn ext_u64_from_be_bytes(b: [u8; 8]) -> (r: u64) ensures r as int == be64(b@, 0) { u64::from_be_bytes(b) }
 #[verifier::external_body]
 pub fn ext_i16_from_le_bytes(b: [u8; 2]) -> (r: i16) ensures r as int == lei16(b@, 0) { i16::from_le_bytes(b) }
+
+// ---- equivalent spellings of the same bit test (so that rewriting a mask check as a shift, or `% 4` as `& 3`, is not an alarm):
+// the solver does not relate them by itself.
+pub broadcast proof fn lemma_spell_shr8(x: u32) ensures #[trigger] (x >> 8u32) << 8u32 == x & 0xFFFFFF00 { assert((x >> 8u32) << 8u32 == x & 0xFFFFFF00) by (bit_vector); }
+pub broadcast proof fn lemma_spell_shr16(x: u32) ensures #[trigger] (x >> 16u32) << 16u32 == x & 0xFFFF0000 { assert((x >> 16u32) << 16u32 == x & 0xFFFF0000) by (bit_vector); }
+pub broadcast proof fn lemma_spell_shr24(x: u32) ensures #[trigger] (x >> 24u32) << 24u32 == x & 0xFF000000 { assert((x >> 24u32) << 24u32 == x & 0xFF000000) by (bit_vector); }
+pub broadcast proof fn lemma_spell_shr28(x: u32) ensures #[trigger] (x >> 28u32) << 28u32 == x & 0xF0000000 { assert((x >> 28u32) << 28u32 == x & 0xF0000000) by (bit_vector); }
+pub broadcast proof fn lemma_spell_shr31(x: u32) ensures #[trigger] (x >> 31u32) << 31u32 == x & 0x80000000 { assert((x >> 31u32) << 31u32 == x & 0x80000000) by (bit_vector); }
+pub broadcast proof fn lemma_spell_shr_zero(x: u32, k: u32) requires k < 32 ensures (#[trigger] (x >> k) == 0) == ((x >> k) << k == 0) {
+    assert(k < 32 ==> (((x >> k) == 0) == ((x >> k) << k == 0))) by (bit_vector);
+}
+pub broadcast proof fn lemma_spell_top_bit(x: u32) ensures (#[trigger] (x & 0x80000000) != 0) == (x >= 0x80000000) { assert(((x & 0x80000000) != 0) == (x >= 0x80000000)) by (bit_vector); }
+pub broadcast proof fn lemma_spell_mod4(n: usize) ensures #[trigger] (n & 3) == n % 4 { assert((n & 3) == n % 4) by (bit_vector); }
+pub broadcast proof fn lemma_spell_mod2(n: usize) ensures #[trigger] (n & 1) == n % 2 { assert((n & 1) == n % 2) by (bit_vector); }
+pub broadcast proof fn lemma_spell_nibble(x: u32) ensures ((#[trigger] (x >> 28u32)) == 8) == (x & 0xF0000000 == 0x80000000), ((x >> 28u32) == 0xE) == (x & 0xF0000000 == 0xE0000000) {
+    assert((((x >> 28u32)) == 8) == (x & 0xF0000000 == 0x80000000)) by (bit_vector);
+    assert(((x >> 28u32) == 0xE) == (x & 0xF0000000 == 0xE0000000)) by (bit_vector);
+}
+pub broadcast proof fn lemma_spell_bit31(x: u32) ensures ((#[trigger] (x >> 31u32)) == 1) == (x & 0x80000000 != 0) { assert(((x >> 31u32) == 1) == (x & 0x80000000 != 0)) by (bit_vector); }
+pub broadcast proof fn lemma_spell_bit12(f: u16) ensures (#[trigger] (f & 0x1000) != 0) == ((f >> 12u16) & 1 == 1) { assert(((f & 0x1000) != 0) == ((f >> 12u16) & 1 == 1)) by (bit_vector); }
+pub broadcast proof fn lemma_spell_bit13(f: u16) ensures (#[trigger] (f & 0x2000) != 0) == ((f >> 13u16) & 1 == 1) { assert(((f & 0x2000) != 0) == ((f >> 13u16) & 1 == 1)) by (bit_vector); }
+pub broadcast group bit_spellings { lemma_spell_nibble, lemma_spell_bit31, lemma_spell_bit12, lemma_spell_bit13, lemma_spell_shr8, lemma_spell_shr16, lemma_spell_shr24, lemma_spell_shr28, lemma_spell_shr31, lemma_spell_shr_zero, lemma_spell_top_bit, lemma_spell_mod4, lemma_spell_mod2 }
